@@ -146,13 +146,14 @@ type c04Env struct {
 	traffic  map[string]uint8
 	upstream map[string]uint8
 	// caches
-	expand map[string][]*c04Param // "" value = nil slice with ok flag in expandOk
-	expOk  map[string]bool
-	atomM  map[string]any
-	stats  *VStats
-	stages map[string][]string
-	dnsNew bool // dns.New is usable as the production constructor
-	bulk   map[c04Atom]c04BulkRef
+	expand    map[string][]*c04Param // "" value = nil slice with ok flag in expandOk
+	expOk     map[string]bool
+	atomM     map[string]any
+	stats     *VStats
+	stages    map[string][]string
+	dnsNew    bool // dns.New is usable as the production constructor
+	bulk      map[c04Atom]c04BulkRef
+	sharedDat *routing.DatReaderOptimizer
 }
 
 // What a production call site looks like, read from the source of the repo under test (go/ast):
@@ -421,6 +422,11 @@ func (e *c04Env) mkOptimizers(names []string) []routing.RulesOptimizer {
 
 // the pipeline of the backend, in the order the production call site lists it.
 func (e *c04Env) optimizers(kind string) []routing.RulesOptimizer {
+	if kind == "traffic" {
+		// the very expressions NewControlPlane passes to NewNormalizedProgram, regenerated from
+		// control_plane.go as Go code by translators/optchain (ctx.optchain_overlay) and compiled in
+		return c01ProductionOptimizers(e.log, e.lf)
+	}
 	return e.mkOptimizers(e.stages[kind])
 }
 
@@ -580,6 +586,93 @@ func (e *c04Env) compile(kind string, rules []*c04Rule, fb config.FunctionOrStri
 		}
 		return &c04Matcher{kind: kind, rs: rs}, normalised, split, ""
 	}
+}
+
+// ---------------------------------------------------------------- the configuration loader
+
+func c04RenderFunc(f *c04Func, quote bool) string {
+	var ps []string
+	for _, p := range f.Params {
+		v := p.Val
+		if quote {
+			v = "'" + v + "'"
+		}
+		if p.Key != "" {
+			v = p.Key + ": " + v
+		}
+		ps = append(ps, v)
+	}
+	n := ""
+	if f.Not {
+		n = "!"
+	}
+	if len(ps) == 0 && !quote {
+		return n + f.Name
+	}
+	return n + f.Name + "(" + strings.Join(ps, ", ") + ")"
+}
+
+func c04RenderConfig(rules []*c04Rule, fb string) string {
+	var sb strings.Builder
+	sb.WriteString("global {}\nrouting {\n")
+	for _, r := range rules {
+		var fs []string
+		for _, f := range r.AndFunctions {
+			fs = append(fs, c04RenderFunc(f, true))
+		}
+		sb.WriteString("  " + strings.Join(fs, " && ") + " -> " + c04RenderFunc(&r.Outbound, false) + "\n")
+	}
+	sb.WriteString("  fallback: " + fb + "\n}\n")
+	return sb.String()
+}
+
+// written rules -> config text -> REAL parser -> REAL config.New; ok=false if the text does not
+// parse back to exactly the written rules (then the program is not used).
+func (e *c04Env) throughConfig(written []*c04Rule, fb string) ([]*c04Rule, config.FunctionOrString, bool) {
+	secs, err := config_parser.Parse(c04RenderConfig(written, fb))
+	if err != nil {
+		return nil, nil, false
+	}
+	var parsed []*c04Rule
+	for _, s := range secs {
+		if s.Name != "routing" {
+			continue
+		}
+		for _, it := range s.Items {
+			if r, ok := it.Value.(*c04Rule); ok {
+				parsed = append(parsed, r)
+			}
+		}
+	}
+	if c04SerProg(parsed) != c04SerProg(written) {
+		return nil, nil, false
+	}
+	cfg, err := config.New(secs)
+	if err != nil {
+		return nil, nil, false
+	}
+	return cfg.Routing.Rules, cfg.Routing.Fallback, true
+}
+
+// the stage list of the backend with ONE long-lived DatReaderOptimizer (cache kept across rule lists)
+func (e *c04Env) sharedChain(kind string) []routing.RulesOptimizer {
+	if e.sharedDat == nil {
+		e.sharedDat = &routing.DatReaderOptimizer{Logger: e.log, LocationFinder: e.lf}
+	}
+	var out []routing.RulesOptimizer
+	for _, n := range e.stages[kind] {
+		switch n {
+		case "AliasOptimizer":
+			out = append(out, &routing.AliasOptimizer{})
+		case "DatReaderOptimizer":
+			out = append(out, e.sharedDat)
+		case "MergeAndSortRulesOptimizer":
+			out = append(out, &routing.MergeAndSortRulesOptimizer{})
+		case "DeduplicateParamsOptimizer":
+			out = append(out, &routing.DeduplicateParamsOptimizer{})
+		}
+	}
+	return out
 }
 
 // ---------------------------------------------------------------- atoms
@@ -955,6 +1048,8 @@ var (
 	c04Qtypes  = []string{"a", "aaaa", "cname", "28", "https", "A", "1"}
 	c04Ups     = []string{"alidns", "googledns", "cf"}
 
+	c04Groups = []string{"proxy", "direct", "block", "other", "proxy", "direct", "us_proxy", "my_group", "tunnel", "sg", "mustang", "_x"}
+
 	c04Domains = []string{"", "a.com", "www.a.com", "b.a.com", "xa.com", "x.org", "goo.net", "goog.le", "c.com", "b.com", "x.b.com", "a.co", "x.a.org", "zzz.net", "d0000.big.example", "x.d2999.big.example", "h007.example", "www.h399.example", "d3999.big.example", "d4000.big.example"}
 	c04Addrs   = []string{"10.0.0.1", "10.1.2.3", "10.2.77.9", "10.3.200.1", "11.0.0.0", "1.1.1.1", "1.1.1.2", "1.1.2.1", "192.168.1.1", "192.169.0.0", "192.169.3.4", "8.8.8.8", "8.8.9.8", "2001:db8::1", "2001:db9::1", "::1", "::2", "fd00::5", "fe00::5", "b::c", "a:b::c"}
 	c04PortNum = []uint16{0, 1, 79, 80, 81, 443, 999, 1000, 1023, 1024, 2000, 2001, 8080, 65535}
@@ -1080,9 +1175,12 @@ func c04GenFunc(r *VRand, kind, name string, neg bool) *c04Func {
 func c04GenOutbound(r *VRand, kind string) c04Func {
 	switch kind {
 	case "traffic":
-		o := c04Func{Name: c04Pick(r, []string{"proxy", "direct", "block", "other", "proxy", "direct"})}
+		o := c04Func{Name: c04Pick(r, c04Groups)}
 		if r.Chance(0.06) {
 			return c04Func{Name: "must_rules"}
+		}
+		if r.Chance(0.15) { // the must_ shorthand, also on group names that begin with m/u/s/t/_
+			return c04Func{Name: "must_" + o.Name}
 		}
 		if r.Chance(0.04) { // more than five parameters (Function.String prints only five)
 			o.Params = []*c04Param{{Val: "must"}, {Val: "must"}, {Val: "must"}, {Val: "must"}, {Val: "must"}, {Key: "mark", Val: c04Pick(r, []string{"1", "2"})}}
@@ -1259,6 +1357,84 @@ func c04GenBigProg(r *VRand, kind string) []*c04Rule {
 	return rules
 }
 
+// Two different address sets whose canonical lists hash alike under hashLpmSet (the hash runs over an
+// undelimited stream of (prefix length, address bytes): {v4, v6} and {v6, v4} cut from the same 22 bytes;
+// construction as in the C12 harness) used alternately by ip/sip rules: drives the collision branch of
+// addIp/addSourceIp.  Returns the rules, packets aimed at the four prefixes, and whether the pair collides.
+func c04GenCollisionProg(r *VRand) ([]*c04Rule, []*c04Packet, bool) {
+	var b [22]byte
+	for i := range b {
+		b[i] = byte(r.U64())
+	}
+	b[0] = byte(r.Intn(32))
+	b[17] = b[0] + 1 + byte(r.Intn(int(32-b[0])))
+	b[5] = b[0] + byte(r.Intn(int(129-int(b[0]))))
+	var a4, b4 [4]byte
+	var a16, b16 [16]byte
+	copy(a4[:], b[1:5])
+	copy(a16[:], b[6:22])
+	copy(b16[:], b[1:17])
+	copy(b4[:], b[18:22])
+	A := []netip.Prefix{netip.PrefixFrom(netip.AddrFrom4(a4), int(b[0])), netip.PrefixFrom(netip.AddrFrom16(a16), int(b[5]))}
+	B := []netip.Prefix{netip.PrefixFrom(netip.AddrFrom16(b16), int(b[0])), netip.PrefixFrom(netip.AddrFrom4(b4), int(b[17]))}
+	collide := hashLpmSet(canonicalizePrefixes(A)) == hashLpmSet(canonicalizePrefixes(B)) && !prefixesEqual(canonicalizePrefixes(A), canonicalizePrefixes(B))
+	mk := func(name string, set []netip.Prefix, neg bool, out string, extra ...*c04Func) *c04Rule {
+		f := &c04Func{Name: name, Not: neg}
+		for _, p := range set {
+			f.Params = append(f.Params, &c04Param{Val: p.String()})
+		}
+		return &c04Rule{AndFunctions: append([]*c04Func{f}, extra...), Outbound: c04Func{Name: out}}
+	}
+	port := func(v string) *c04Func { return &c04Func{Name: "dport", Params: []*c04Param{{Val: v}}} }
+	rules := []*c04Rule{
+		mk("dip", A, false, "proxy", port("80")),
+		mk("sip", B, false, "block", port("443")),
+		mk("dip", B, false, "other", port("8080")),
+		mk("sip", A, r.Chance(0.3), "us_proxy", port("80")),
+		mk("dip", []netip.Prefix{B[1], B[0]}, false, "my_group"),
+		mk("dip", A, false, "tunnel"),
+	}
+	var pkts []*c04Packet
+	addrs := []netip.Addr{netip.AddrFrom4(a4), netip.AddrFrom4(b4), netip.AddrFrom16(a16), netip.AddrFrom16(b16), netip.MustParseAddr("9.9.9.9")}
+	for _, d := range addrs {
+		for _, sa := range []netip.Addr{addrs[r.Intn(len(addrs))], addrs[4]} {
+			for _, dp := range []uint16{80, 443, 8080, 81} {
+				pkts = append(pkts, &c04Packet{src: sa, dst: d, sport: 1000, dport: dp, l4: consts.L4ProtoType_TCP, mac: [6]byte{2, 0, 0, 0, 0, 1}, qname: "a.com", qtype: 1})
+			}
+		}
+	}
+	return rules, pkts, collide
+}
+
+// long lists (worker pool of DatReaderOptimizer, result placement by index): n rules, most of them with a
+// geodata reference, short runs so that many rules survive merging.
+func c04GenLongProg(r *VRand, kind string, n int) []*c04Rule {
+	var rules []*c04Rule
+	for len(rules) < n {
+		var f *c04Func
+		switch kind {
+		case "traffic":
+			switch r.Intn(3) {
+			case 0:
+				f = &c04Func{Name: "domain", Params: []*c04Param{{Key: "geosite", Val: c04Pick(r, []string{"one", "mix", "attr@x", "dup", "twice", "both"})}, {Key: "suffix", Val: fmt.Sprintf("h%03d.example", r.Intn(400))}}}
+			case 1:
+				f = &c04Func{Name: "dip", Params: []*c04Param{{Key: "geoip", Val: c04Pick(r, []string{"v4", "v6", "mixip", "both"})}, {Val: fmt.Sprintf("10.%d.%d.0/24", r.Intn(4), r.Intn(256))}}}
+			default:
+				f = &c04Func{Name: "domain", Params: []*c04Param{{Key: "ext", Val: c04Pick(r, []string{"extra:e1", "extra:mix", "extra:one"})}, {Key: "full", Val: fmt.Sprintf("h%03d.example", r.Intn(400))}}}
+			}
+		default:
+			f = &c04Func{Name: "qname", Params: []*c04Param{{Key: "geosite", Val: c04Pick(r, []string{"one", "mix", "attr@x", "dup", "twice"})}, {Key: "suffix", Val: fmt.Sprintf("h%03d.example", r.Intn(400))}}}
+		}
+		f.Not = r.Chance(0.3) // negated rules are never merged: the list stays long
+		out := c04GenOutbound(r, kind)
+		if out.Name == "must_rules" {
+			out = c04Func{Name: "proxy"}
+		}
+		rules = append(rules, &c04Rule{AndFunctions: []*c04Func{f}, Outbound: out})
+	}
+	return rules
+}
+
 func c04GenPacket(r *VRand, kind string) *c04Packet {
 	p := &c04Packet{}
 	p.dst = netip.MustParseAddr(c04Pick(r, c04Addrs))
@@ -1330,8 +1506,34 @@ func (e *c04Env) runProgram(o *c04Out, r *VRand, kind, tag string, rules []*c04R
 	case "dnsreq":
 		backend = "scansplit"
 	}
-	// fallback label
-	fbLabel, ok := e.label(kind, &c04Func{Name: fb})
+	// Traffic rules reach the call site through the configuration loader: the rules as written are
+	// rendered as a config file and go through the REAL config_parser.Parse + config.New (which
+	// rewrites the must_ shorthand on rule outbounds and on the fallback).  `written` is what the model
+	// gets; `rules` / `fbFOS` is what production would hand to NewNormalizedProgram.
+	written := rules
+	fbFOS := config.FunctionOrString(fb)
+	if kind == "traffic" {
+		real, realFb, ok := e.throughConfig(written, fb)
+		if !ok {
+			st.Inc("traffic.config_roundtrip_failed")
+			return
+		}
+		st.Inc("traffic.rules_through_real_config.New")
+		rules, fbFOS = real, realFb
+		for _, w := range written {
+			if strings.HasPrefix(w.Outbound.Name, "must_") && w.Outbound.Name != "must_rules" {
+				st.Inc("gen.must_shorthand_outbounds")
+			}
+		}
+		if strings.HasPrefix(fb, "must_") {
+			st.Inc("gen.must_shorthand_fallbacks")
+		}
+	}
+	fbFunc, err := config.ParseFunctionOrString(fbFOS)
+	if err != nil {
+		panic("bad fallback " + fb)
+	}
+	fbLabel, ok := e.label(kind, fbFunc)
 	if !ok {
 		panic("bad fallback " + fb)
 	}
@@ -1350,6 +1552,14 @@ func (e *c04Env) runProgram(o *c04Out, r *VRand, kind, tag string, rules []*c04R
 		if !seenOut[sb.String()] {
 			seenOut[sb.String()] = true
 			labelToks = append(labelToks, sb.String()+" "+l)
+		}
+	}
+	{
+		var sb strings.Builder
+		c04SerFunc(&sb, fbFunc)
+		if !seenOut[sb.String()] {
+			seenOut[sb.String()] = true
+			labelToks = append(labelToks, sb.String()+" "+fbLabel)
 		}
 	}
 	// geodata references → table entries (content from the real DatReaderOptimizer)
@@ -1422,7 +1632,7 @@ func (e *c04Env) runProgram(o *c04Out, r *VRand, kind, tag string, rules []*c04R
 		atomToks = append(atomToks, c04Tok(a.name)+" "+c04Tok(a.key)+" "+c04Tok(a.val))
 	}
 	// real pipeline + real builder
-	m, normalised, split, stage := e.compile(kind, rules, config.FunctionOrString(fb), e.optimizers(kind))
+	m, normalised, split, stage := e.compile(kind, rules, fbFOS, e.optimizers(kind))
 	opt := "err"
 	if stage != "opt" {
 		opt = c04SerProg(normalised)
@@ -1439,7 +1649,7 @@ func (e *c04Env) runProgram(o *c04Out, r *VRand, kind, tag string, rules []*c04R
 		}
 	}
 	// the program after alias/dat only, compiled by the real builder as well (direct differential)
-	mRaw, _, _, _ := e.compile(kind, rules, config.FunctionOrString(fb), e.expandOnly(kind))
+	mRaw, _, _, _ := e.compile(kind, rules, fbFOS, e.expandOnly(kind))
 	d := c04Descr{Kind: "P", Backend: kind, Tag: tag, Text: c04Text(rules), Fb: fb}
 	if stage != "opt" {
 		d.Merged = len(rules) - len(normalised)
@@ -1448,11 +1658,23 @@ func (e *c04Env) runProgram(o *c04Out, r *VRand, kind, tag string, rules []*c04R
 			d.Changed = c04SerProg(E) != opt
 		}
 	}
-	op := fmt.Sprintf("P %s %s %s G %d %s L %d %s FB %s A %d %s GN 0 %s", backend, cat, alias,
+	var fbw strings.Builder
+	c04SerFunc(&fbw, &c04Func{Name: fb})
+	op := fmt.Sprintf("P %s %s %s G %d %s L %d %s FB %s FBW %s A %d %s GN 0 %s", backend, cat, alias,
 		len(geoToks), strings.Join(geoToks, " "), len(labelToks), strings.Join(labelToks, " "),
-		strings.TrimPrefix(fbLabel, "F "), len(atoms), strings.Join(atomToks, " "), c04SerProg(rules))
+		strings.TrimPrefix(fbLabel, "F "), fbw.String(), len(atoms), strings.Join(atomToks, " "), c04SerProg(written))
 	op = strings.Join(strings.Fields(op), " ")
-	o.emit(op, "opt="+opt+" split="+split, d)
+	d.Text = c04Text(written)
+	o.emit(op, "opt="+opt+" split="+split+" fb="+c04Dec(fbLabel, false), d)
+	// a DatReaderOptimizer that has already served other rule lists must normalise like a fresh one
+	if tag == "gen" && r.Chance(0.25) && stage != "opt" {
+		same := "differs"
+		if got, err := routing.ApplyRulesOptimizers(rules, e.sharedChain(kind)...); err == nil && c04SerProg(got) == opt {
+			same = "same"
+		}
+		o.emit(fmt.Sprintf("sharedcache %d", st.C["sharedcache.checks"]), "shared="+same, c04Descr{Kind: "shared", Backend: kind})
+		st.Inc("sharedcache.checks")
+	}
 	st.Inc(kind + ".programs")
 	if tag == "gen" {
 		st.Add(kind+".rules", len(rules))
@@ -1492,7 +1714,7 @@ func (e *c04Env) runProgram(o *c04Out, r *VRand, kind, tag string, rules []*c04R
 		l, _ := e.label(kind, &rule.Outbound)
 		labels[rule] = l
 	}
-	if tag == "scale" {
+	if tag == "scale" || tag == "long" {
 		e.prepareBulk(atoms)
 	}
 	pkts := append([]*c04Packet(nil), packets...)
@@ -1637,7 +1859,7 @@ func TestVerifC04(t *testing.T) {
 	env := &c04Env{
 		log:      log,
 		lf:       assets.NewLocationFinder([]string{geoDir}),
-		traffic:  map[string]uint8{"direct": uint8(consts.OutboundDirect), "block": uint8(consts.OutboundBlock), "proxy": 2, "other": 3},
+		traffic:  map[string]uint8{"direct": uint8(consts.OutboundDirect), "block": uint8(consts.OutboundBlock), "proxy": 2, "other": 3, "us_proxy": 4, "my_group": 5, "tunnel": 6, "sg": 7, "mustang": 8, "_x": 9},
 		upstream: map[string]uint8{"alidns": 0, "googledns": 1, "cf": 2},
 		expand:   map[string][]*c04Param{},
 		expOk:    map[string]bool{},
@@ -1689,6 +1911,42 @@ func TestVerifC04(t *testing.T) {
 		}
 	}
 
+	// constructed FNV collisions of two different address sets
+	nColl := 12
+	if VThorough() {
+		nColl = 120
+	}
+	for i := 0; i < nColl; i++ {
+		rules, pkts, collide := c04GenCollisionProg(r)
+		if collide {
+			stats.Inc("lpm.constructed_hash_collisions")
+		}
+		env.runProgram(out, r, "traffic", "lpm-collision", rules, "direct", pkts, 2)
+	}
+	// long lists: DatReaderOptimizer's worker pool on 300-1000 rules with geodata references
+	longs := []struct {
+		kind string
+		n    int
+	}{{"traffic", 330}}
+	if VThorough() {
+		longs = nil
+		for _, k := range []string{"traffic", "dnsreq", "dnsresp"} {
+			for _, n := range []int{300, 513, 777, 1000} {
+				longs = append(longs, struct {
+					kind string
+					n    int
+				}{k, n + r.Intn(7)})
+			}
+		}
+	}
+	for _, l := range longs {
+		fb := map[string]string{"traffic": "direct", "dnsreq": "asis", "dnsresp": "accept"}[l.kind]
+		rules := c04GenLongProg(r, l.kind, l.n)
+		stats.Add("long.rules", len(rules))
+		stats.Inc("long.programs")
+		env.runProgram(out, r, l.kind, "long", rules, fb, nil, 3)
+	}
+
 	nProg := map[string]int{"traffic": 700, "dnsreq": 300, "dnsresp": 300}
 	nPkt := 8
 	if VThorough() {
@@ -1697,7 +1955,7 @@ func TestVerifC04(t *testing.T) {
 	}
 	kinds := []string{"traffic", "dnsreq", "dnsresp"}
 	for _, kind := range kinds {
-		fbs := map[string][]string{"traffic": {"direct", "block", "proxy"}, "dnsreq": {"asis", "alidns", "reject"}, "dnsresp": {"accept", "reject", "googledns"}}[kind]
+		fbs := map[string][]string{"traffic": {"direct", "block", "proxy", "must_proxy", "us_proxy", "must_us_proxy", "must_tunnel", "must_my_group"}, "dnsreq": {"asis", "alidns", "reject"}, "dnsresp": {"accept", "reject", "googledns"}}[kind]
 		for i := 0; i < nProg[kind]; i++ {
 			rules := c04GenProg(r, kind, stats)
 			env.runProgram(out, r, kind, "gen", rules, c04Pick(r, fbs), nil, nPkt)
